@@ -384,6 +384,51 @@ def inplace_edits(model):
                         newp.add_relation(Relation(newp, [obj], card[0], card[1]))
                     em = (sh._replace_feature(base, list(path2), lambda h, leafsh=f, card=card: (h[0], h[1] + ((card[0], card[1], (leafsh,)),), h[2], h[3], h[4], h[5])), model[1])
                     out.append(('move %s under %s as [%d,%d]' % (f[0], g[0], card[0], card[1]), move, em))
+    # move an inner feature together with its sub-tree under a feature that is not one of its descendants
+    for path, f in sh._paths(root):
+        if path and f[1]:
+            inside = set(x[0] for x in sh.features(f))
+            base = sh._replace_feature(root, list(path), lambda _g: None)
+            for path2, g in sh._paths(base):
+                if g[0] == pm[f[0]] or g[0] in inside:
+                    continue
+
+                def move_tree(fm, top=f[0], target=g[0]):
+                    from flamapy.metamodels.fm_metamodel.models import Relation
+                    obj = fm.get_feature_by_name(top)
+                    old_parent = obj.get_parent()
+                    for rel in list(old_parent.get_relations()):
+                        if any(c is obj for c in rel.children):
+                            rel.children.remove(obj)
+                            if not rel.children:
+                                old_parent.relations.remove(rel)
+                            elif rel.card_max == -1:
+                                rel.card_min = min(rel.card_min, len(rel.children))
+                            else:
+                                rel.card_max = min(rel.card_max, len(rel.children))
+                                rel.card_min = min(rel.card_min, rel.card_max)
+                    newp = fm.get_feature_by_name(target)
+                    newp.add_relation(Relation(newp, [obj], 0, 1))
+                em = (sh._replace_feature(base, list(path2), lambda h, sub=f: (h[0], h[1] + ((0, 1, (sub,)),), h[2], h[3], h[4], h[5])), model[1])
+                out.append(('move sub-tree %s under %s' % (f[0], g[0]), move_tree, em))
+    # replace a relation object by a new one of another cardinality over the same children (same number of relations)
+    for path, f in sh._paths(root):
+        for ri, (a0, b0, kids) in enumerate(f[1]):
+            for (a, b) in sp.cards_for(len(kids)):
+                if (a, b) == (a0, b0) or (a, b) == (0, 0):
+                    continue
+
+                def swap(fm, name=f[0], ri=ri, a=a, b=b):
+                    from flamapy.metamodels.fm_metamodel.models import Relation
+                    owner = fm.get_feature_by_name(name)
+                    old = owner.get_relations()[ri]
+                    new = Relation(owner, list(old.children), a, b)
+                    owner.relations.remove(old)
+                    owner.add_relation(new)
+                    owner.relations.insert(ri, owner.relations.pop())
+                em = (sh._replace_feature(root, list(path), lambda g, ri=ri, a=a, b=b: (g[0], g[1][:ri] + ((a, b, g[1][ri][2]),) + g[1][ri + 1:], g[2], g[3], g[4], g[5])), model[1])
+                out.append(('replace relation %s#%d by a new [%d,%d] relation' % (f[0], ri, a, b), swap, em))
+                break
     # remove a leaf that no constraint mentions (the relation shrinks or disappears)
     mentioned = set(n for _c, t in model[1] for n in sh.tree_names(t))
     for path, f in sh._paths(root):
